@@ -2,7 +2,12 @@
    written down together with a PROOF of the statement it claims (n_stmt is inferred from the proof
    term), so `sites_all_discharged` (Props/C03.v) cannot be satisfied by naming a site without a
    theorem. Keys are (file, function, operand text, kind); they are matched against the list that
-   tools/sites regenerates from /repo on every run. *)
+   tools/sites regenerates from /repo on every run.
+   The six sites that WERE order-dependent (Schemas.Consolidate, inferDiscriminatorField's candidate
+   fields, FieldsSetDefault.processObject, Pipeline.interpolate, typescript formatValue,
+   ComposeBuilders) no longer range over a map: they collect the keys and sort them (class
+   CollectThenSort, discharged by the general lemma) or iterate a slice. They have NO entry here on
+   purpose: if one of those loops ranges over its map again, sites_all_discharged fails. *)
 From Coq Require Import List String Bool Permutation.
 From Cog Require Import Model.Sites Model.PermModels Model.Pipeline
   Proofs.PermLemmas Proofs.PermModelsProofs Proofs.PermPassesProofs Proofs.PipelineProofs.
@@ -13,27 +18,16 @@ Local Open Scope list_scope.
 Definition N f fn op k v m (P : Prop) (pf : P) : named := mkNamed f fn op k v m P pf.
 
 Definition named_sites : list named := [
-  (* ---- schema consolidation: same accept/reject and same schemas for every order, but their
-          ORDER (what `cog inspect` prints, the order jennies walk packages in) follows the map *)
-  N "internal/ast/schema.go" "Schemas.Consolidate" "byPackage" "range" OrderDependent "Pipeline.consolidate"
-    _ (conj consolidate_order_refuted_proof consolidate_perm_proof);
-  (* ---- DisjunctionInferMapping *)
+  (* ---- DisjunctionInferMapping: the branch types are collected in map order and only used as a
+          set (all-quantifier). (The candidate FIELDS are collected with tools.Keys and sorted since
+          fix 5b9ef0c: that call site is of class CollectThenSort.) *)
   N "internal/ast/compiler/disjunctions_infer_mapping.go" "DisjunctionInferMapping.inferDiscriminatorField" "candidates" "range"
-    Invariant "PermModels.inferDiscriminatorField (seq_types)" _ infer_types_order_irrelevant_proof;
-  N "internal/ast/compiler/disjunctions_infer_mapping.go" "DisjunctionInferMapping.inferDiscriminatorField" "candidates[someType]" "range"
-    OrderDependent "PermModels.inferDiscriminatorField (seq_fields)"
-    _ (conj infer_two_candidates_refuted_proof infer_unique_candidate_invariant_proof);
-  (* ---- FieldsSetDefault *)
-  N "internal/ast/compiler/fields_set_default.go" "FieldsSetDefault.processObject" "pass.DefaultValues" "range"
-    OrderDependent "Passes.fields_set_default_obj"
-    _ (conj fields_set_default_two_keys_refuted_proof fields_set_default_unique_invariant_proof);
+    Invariant "PermModels.inferDiscriminatorField (seq_types)" _ inferDiscriminatorField_invariant_proof;
+  (* ---- FieldsSetDefault: the yaml keys are turned into FieldReferences *)
   N "internal/yaml/compilerpasses.go" "FieldsSetDefault.AsCompilerPass" "pass.Defaults" "range"
     InvariantUnder "PermModels.keyed_write_loop (key = FieldReferenceFromString, injective on distinct keys)"
     _ (conj keyed_write_loop_invariant_proof nodup_map_injective);
   (* ---- parameter interpolation *)
-  N "internal/codegen/pipeline.go" "Pipeline.interpolate" "pipeline.Parameters" "range"
-    OrderDependent "PermModels.interpolate"
-    _ (conj interpolate_nested_refuted_proof (conj interpolate_overlap_refuted_proof interpolate_invariant_if_commute_proof));
   N "internal/codegen/output.go" "Output.interpolateParameters" "output.TemplatesData" "range"
     InvariantUnder "PermModels.keyed_write_loop (key = id, value = interpolator(value): a function)"
     _ keyed_write_loop_invariant_proof;
@@ -70,12 +64,6 @@ Definition named_sites : list named := [
   N "internal/openapi/generator.go" "generator.declareDefinition" "schemas" "range"
     InvariantUnder "PermModels.collect_then_sort_by (objects sorted by name by GenerateAST)" _ collect_then_sort_by_invariant_proof;
   (* ---- results appended in map order *)
-  N "internal/jennies/typescript/tools.go" "formatValue" "mapVal" "range"
-    OrderDependent "PermModels.formatValue_map"
-    _ (conj formatValue_map_refuted_proof formatValue_map_small_invariant_proof);
-  N "internal/veneers/builder/rules.go" "ComposeBuilders" "composableBuilders" "range"
-    InvariantAsSet "PermModels.ComposeBuilders"
-    _ (conj ComposeBuilders_order_refuted_proof ComposeBuilders_perm_proof);
   N "internal/languages/converter.go" "ConverterGenerator.FromBuilder" "generator.listOfDisjunctionOptions" "range"
     InvariantAsSet "PermModels.FromBuilder_mappings"
     _ (conj FromBuilder_mappings_order_refuted_proof FromBuilder_mappings_perm_proof);
